@@ -41,6 +41,7 @@ FIXED = [
     "fixed: property=C17 d6a9565 the documented `import \"lib/math.facto\";` only resolved when the working directory was the repository root (default import path listed the package directory instead of the repository root)",
     "fixed: property=C17 a03a28a an import cycle leading back to the compiled file inlined its text a second time (uses before definitions, duplicate definitions)",
     "fixed: property=C15 b2d189c two calls of a function declaring a Memory shared one cell (same commit as the C16 entry)",
+    "fixed: property=C13 463dbab implicit signals were allocated from a pool that did not exclude the signals the program uses explicitly (`Signal a = (\"signal-A\", 5); Signal b = 7;` put both on signal-A)",
     "fixed: property=C01 7701d37 a comparison with an integer literal on the left (`3 < a`) was emitted as `signal-0 < a`",
 ]
 
@@ -137,6 +138,15 @@ add("C17", "C17-cwd-file-shadows-bundled-library",
     "observed as the decoy's marker value 12345 in the executed blueprint",
     {"stratum": "lib_decoy_in_cwd", "kind": "lib", "fn": "abs", "ints": [], "ntuples": 10, "decoy_cwd": True,
      "import_as": "math.facto", "vseed": 5, "sseed": 5, "pseed": 5})
+
+
+# ---- C13
+add("C13", K1, K1_WHAT, "K1",
+    {"stratum": "mix_head_of_pool", "prog": [["input", "e0", "signal-D", 0], ["input", "e1", "signal-B", 6],
+     ["input", "u0", None, -5], ["sig", "r0", ["c", ">=", ["v", "e0"], ["v", "e0"]]],
+     ["sig", "r1", ["s", ["c", ">", ["v", "e1"], ["n", -2]], ["v", "e0"]]],
+     ["sig", "r2", ["b", "+", ["v", "r0"], ["v", "u0"]]], ["sig", "r3", ["b", "-", ["v", "r1"], ["v", "u0"]]]],
+     "nval": 8, "vseed": 1008505233, "sseed": 26184728, "pseed": 424562606})
 
 
 def main():
